@@ -29,6 +29,34 @@ META = {
         note="trusted: Go stdlib for the pool relations (ToLower, bytes.Compare, HasPrefix); queries limited to those passing validation"),
 }
 
+META.update({
+    "C03": dict(
+        technique="TLA+ kNN/soundness predicates (Docs.tla HitsSound/HitsExact) as oracle + TLC trace validation of graph searches",
+        design_ref="DESIGN.md 5 C03",
+        text=("RankMC shows the ranking predicates are satisfiable and pin the answer up to ties on all small inputs; every "
+              "graph search issued after randomised histories on real shards is validated by TLC: soundness always, exactness in "
+              "the regimes where the property claims it."),
+        note="trusted: TLC, integer-valued vectors (exact float32 arithmetic), harness' float64 haversine reference"),
+    "C04": dict(
+        technique="TLA+ exact-kNN predicate (Docs.tla HitsExact) as oracle + TLC trace validation warm / evicted / cold",
+        design_ref="DESIGN.md 5 C04",
+        text=("Every flat search answer (warm, after eviction, cold on a copy of the file) is checked by TLC to be the exact "
+              "k nearest neighbours within the filter with the metric's distances, for all six metrics."),
+        note="trusted: TLC, integer-valued vectors; product / learned-binary quantisers not exercised"),
+    "C05": dict(
+        technique="TLA+ tf-idf model in scaled integers (Docs.tla TextOK) + TLC trace validation",
+        design_ref="DESIGN.md 5 C05",
+        text=("TLC recomputes match sets, corpus size, document frequencies and tf-idf scores from the model state for every "
+              "text query issued after histories that insert / rewrite / blank / delete text fields, and checks order and cut."),
+        note="trusted: bleve's standard analyser (called directly by the harness), log10 table from Go's math library"),
+    "C10": dict(
+        technique="TLA+ well-formedness invariants (ShardTrace.tla TGraph, Shard.tla ShardWF) evaluated by TLC on persisted-state dumps after every batch",
+        design_ref="DESIGN.md 5 C10",
+        text=("After every write batch of randomised histories the persisted graph and id bookkeeping are dumped (hook H1) and "
+              "TLC evaluates the well-formedness invariants on every trace line; the id allocator design is model-checked exhaustively."),
+        note="trusted: the repo's key-layout helpers (conversion.NodeIdFromKey etc.) used to decode the dump"),
+})
+
 NOT_APPLICABLE = {}
 
 
